@@ -211,12 +211,21 @@ def run_random(v, wd, prop, scn, count, tag):
             shutil.rmtree(cwd, ignore_errors=True)
     beh = os.path.join(wd, f"beh_rand_{tag}.txt")
     n = 0
+    seen_k = {}
     with open(out) as fh, open(beh, "w") as oh:
         for line in fh:
             d = vlib.decode_replay(line)
             d["scripts"] = scenarios[d["k"] - 1]
             oh.write(json.dumps(d) + "\n")
             n += 1
+            seen_k[d["k"]] = seen_k.get(d["k"], 0) + 1
+    # C04 at the design level: with the scripts fixed the interpreter has exactly one behaviour per scenario
+    multi = [k for k, c in seen_k.items() if c != 1]
+    if multi or len(seen_k) != len(scenarios):
+        v.add_violation(f"Net.tla is not deterministic for fixed scripts [{tag}]: scenarios with several (or no) complete behaviours: "
+                        f"{multi[:5]} / {len(seen_k)} of {len(scenarios)} scenarios completed", {"scenarios": multi[:5]}, {"suite": "net", "kind": "spec_nondeterminism"})
+        return
+    v.cov["scenarios_with_exactly_one_behaviour"] = v.cov.get("scenarios_with_exactly_one_behaviour", 0) + len(seen_k)
     cfgp = os.path.join(wd, f"cfg_rand_{tag}.json")
     with open(cfgp, "w") as fh:
         json.dump(hc, fh)
